@@ -525,5 +525,80 @@ def r17_10(ctx):
         raise AnalysisError(f"only {n} range searches found in formatting")
 
 
+def subtree_walk(ctx, qual: str, start_param: str, parts=("scope", "none")):
+    """A walk that is meant to cover exactly the subtree of `start_param` (the node, everything below `.list`, and the
+    `.next` chains of the nodes *below* it): (scope) every step to a `.next` is taken only for nodes other than the start
+    node - or the walker is only ever started on the start node's `.list`, never on the start node itself; (none) every step
+    hands the walker a node: `walker(x.list)` / `walker(x.next)` is guarded by the truthiness of that link unless the walker
+    itself begins by testing its argument (`while node:` / `if not node: return`)."""
+    repo = ctx.repo
+    f = repo.func(qual)
+    ctx.analysed(qual)
+    walkers = {n.name: n for n in ast.walk(f.node) if isinstance(n, ast.FunctionDef) and n is not f.node}
+    walkers[f.node.name] = f.node
+    steps = []   # (holder fn, node, kind, link text, callee or None)
+    entry_args = []
+    for wname, w in walkers.items():
+        res = Resolver(w)
+        fl = Flow(w, resolver=res).run()
+        for n in ast.walk(w):
+            if repo.enclosing_func(n) is not None and repo.enclosing_func(n).node is not w:
+                continue
+            if isinstance(n, ast.Call) and isinstance(n.func, ast.Name) and n.func.id in walkers and n.func.id != f.node.name and n.args:
+                a = n.args[0]
+                link = a.attr if isinstance(a, ast.Attribute) else None
+                if w is f.node:
+                    entry_args.append((n, ast.unparse(a)))
+                if link in ("next", "list"):
+                    steps.append((w, fl, res, n, link, ast.unparse(a), walkers[n.func.id]))
+            elif isinstance(n, ast.Assign) and len(n.targets) == 1 and isinstance(n.targets[0], ast.Name) and isinstance(n.value, ast.Attribute) \
+                    and n.value.attr in ("next", "list") and isinstance(n.value.value, ast.Name) and n.value.value.id == n.targets[0].id:
+                steps.append((w, fl, res, n, n.value.attr, ast.unparse(n.value), None))
+    if not steps:
+        raise AnalysisError(f"{f.short}: no steps along .list / .next found")
+
+    def tolerant(w: ast.FunctionDef) -> bool:
+        prm = [a.arg for a in w.args.args if a.arg != "self"]
+        body = [s_ for s_ in w.body if not (isinstance(s_, ast.Expr) and isinstance(s_.value, ast.Constant))]
+        if not prm or not body:
+            return False
+        for s_ in body:
+            if isinstance(s_, ast.While) and ast.unparse(s_.test) == prm[0]:
+                return True
+            if isinstance(s_, ast.If) and ast.unparse(s_.test) in (f"not {prm[0]}", f"{prm[0]} is None") and isinstance(s_.body[-1], ast.Return):
+                return True
+            if any(isinstance(x, ast.Name) and x.id == prm[0] for x in ast.walk(s_)):
+                return False
+        return False
+
+    started_below = bool(entry_args) and all(t.endswith(".list") for _, t in entry_args)
+    for w, fl, res, n, link, text, callee in steps:
+        gs = fl.guards_at(n) or set()
+        if "scope" in parts and link == "next":
+            construct = f"{f.short}/step to `{text}` stays inside the subtree of {start_param}"
+            away = any(start_param in k and ((" == " in k or " is " in k) and not pol or (" != " in k or " is not " in k) and pol) for k, pol in gs)
+            if away or (started_below and w is not f.node):
+                ctx.ok(construct, f.loc(n))
+            else:
+                ctx.bad(construct, f"the sibling chain is followed from every node, the start node included (guards {sorted(gs)}): the action also "
+                        f"reaches the entries that follow {start_param} in its parent", f.loc(n))
+        if "none" in parts and callee is not None:
+            construct = f"{f.short}/`{ast.unparse(n)[:40]}` hands the walker a node"
+            rt = res.text(n.args[0])
+            ok = any(k in (text, rt) and pol for k, pol in gs) or any(k in (f"{text} is None", f"{rt} is None") and not pol for k, pol in gs) or tolerant(callee)
+            (ctx.ok(construct, f.loc(n)) if ok else
+             ctx.bad(construct, f"`{text}` is None for a node without {'children' if link == 'list' else 'a next sibling'} and the walker dereferences its "
+                     "argument at once: AttributeError", f.loc(n)))
+    return len(steps)
+
+
+def r17_11(ctx):
+    """R17.11 `reset to defaults` of a menu touches exactly that menu: the tree walk behind restore_defaults_recursive()
+    (_recursively_perform_action) follows `.next` only below the start node, and never hands its walker a missing link."""
+    n = subtree_walk(ctx, f"{CORE}:_recursively_perform_action", "start_node")
+    if n < 2:
+        raise AnalysisError("steps of _recursively_perform_action not found")
+
+
 def rules():
-    return [("R17.10", r17_10, 3), ("R17.9", r17_9, 2), ("R17.8", r17_8, 6), ("R17.7", r17_7, 5), ("R17.1", r17_1, 6), ("R17.5", r17_5, 4), ("R17.2", r17_2, 13), ("R17.3", r17_3, 4), ("R17.4", r17_4, 6), ("R17.6", r17_6, 3)]
+    return [("R17.11", r17_11, 3), ("R17.10", r17_10, 3), ("R17.9", r17_9, 2), ("R17.8", r17_8, 6), ("R17.7", r17_7, 5), ("R17.1", r17_1, 6), ("R17.5", r17_5, 4), ("R17.2", r17_2, 13), ("R17.3", r17_3, 4), ("R17.4", r17_4, 6), ("R17.6", r17_6, 3)]
